@@ -73,13 +73,14 @@ def rotation_families(tier: str) -> Dict[str, Dict[str, Any]]:
 
 def order_families(tier: str) -> Dict[str, Dict[str, Any]]:
     wide = tier != "quick"
-    gaps = [0, C1, C2, FAR] if not wide else [-2, 0, C1 - 1, C1, C1 + 1, C2 - 1, C2, C2 + 1, FAR]
+    gaps = [0, C1, C2, FAR] if not wide else [-2, 0, C1 - 1, C1, C2 - 1, C2, FAR]
     return {
         "ord3": {"lens": (3, 4, 3), "gaps": gaps,
                  "hits": [("a", "b", "a"), ("ab", "c", "b"), ("b", "a", "c")], "rulesets": ORD_RULESETS,
-                 "leads": [0, 3], "tails": [0, 6], "cuts": -2 if not wide else 0},
-        "ord2": {"lens": (3, 4), "gaps": gaps + [C1 - 1, 14], "hits": [("a", "b"), ("ab", "c")],
-                 "rulesets": ORD_RULESETS, "leads": [0, 3], "tails": [0, 6], "cuts": -1 if not wide else 1},
+                 "leads": [0, 3], "tails": [0, 6], "cuts": -2 if not wide else -1},
+        "ord2": {"lens": (3, 4), "gaps": gaps + [C1 - 1, 14] if not wide else gaps + [C1 + 1, C2 + 1, 14],
+                 "hits": [("a", "b"), ("ab", "c")],
+                 "rulesets": ORD_RULESETS, "leads": [0, 3], "tails": [0, 6], "cuts": -1 if not wide else 0},
     }
 
 
@@ -159,6 +160,20 @@ def crash_label(sub: Dict[str, Any]) -> str:
     return "[crash:" + labelled.split("[", 1)[1] if "[" in labelled else ""
 
 
+def stacked_over_origin(case: Dict[str, Any]) -> bool:
+    """ two expected protoclusters overlap (they form a multi-protocluster candidate) and one of them
+        crosses the origin: candidate clusters are de-duplicated by (location.start, location.end), which is
+        (0, L) for every origin-crossing location """
+    length = case["L"]
+    areas = [bases for _, _, bases in chk.expected_areas(case)]
+    crossing = [0 in bases and length - 1 in bases and len(bases) < length for bases in areas]
+    for i in range(len(areas)):
+        for j in range(i + 1, len(areas)):
+            if areas[i] & areas[j] and (crossing[i] or crossing[j]):
+                return True
+    return False
+
+
 def compare_rotation(base: Dict[str, Any], base_obs: model.Observed, cut: int
                      ) -> List[Tuple[str, bool, str]]:
     """ the clauses of the rotation half of C07 for one rotation of one base record """
@@ -175,6 +190,8 @@ def compare_rotation(base: Dict[str, Any], base_obs: model.Observed, cut: int
     first, second = signature(base, base_obs), signature(turned, obs)
     for key, clause in ROT_CLAUSES.items():
         same = first[key] == second[key]
+        if key == "candidates" and not suffix and (stacked_over_origin(base) or stacked_over_origin(turned)):
+            clause += "[stacked-areas-over-origin]"
         out.append((clause + suffix, same,
                     "" if same else f"origin moved to base {cut}: {key} {first[key]} became {second[key]}"))
     return out
@@ -378,6 +395,17 @@ def _classifier(suffix: str) -> Any:
     return predicate
 
 
+def _stacked_classifier(clause: str, case: Any) -> bool:
+    """ C07-F11 """
+    if clause != "rotation-same-candidate-clusters[stacked-areas-over-origin]" or not isinstance(case, dict):
+        return False
+    if case.get("kind") != "rotation":
+        return False
+    base = case["base"]
+    turned = chk.rotate_case(base, case["cut"])
+    return not pair_label(base, turned) and (stacked_over_origin(base) or stacked_over_origin(turned))
+
+
 def _crash_classifier(clause: str, case: Any) -> bool:
     """ C07-F10: one of the two compared rulesets lies in a crash class of C03 """
     if not clause.startswith("order-no-exception[crash:") or not isinstance(case, dict) or "base" not in case:
@@ -395,3 +423,4 @@ def _crash_classifier(clause: str, case: Any) -> bool:
 
 FINDING_CLASSES: Dict[str, Any] = {fid: _classifier(suffix) for fid, suffix in ROOTS.items()}
 FINDING_CLASSES["C07-F10"] = _crash_classifier
+FINDING_CLASSES["C07-F11"] = _stacked_classifier
